@@ -31,8 +31,8 @@ def save(d, m):
     json.dump(m, open(os.path.join(d, "meta.json"), "w"), indent=1, sort_keys=True)
 
 
-def do_import(prop, letter, src):
-    d = os.path.join(SEEDED, f"{prop}-{letter.lower()}")
+def do_import(prop, letter, src, as_letter=None):
+    d = os.path.join(SEEDED, f"{prop}-{(as_letter or letter).lower()}")
     os.makedirs(d, exist_ok=True)
     shutil.copy(os.path.join(src, f"{letter}.patch.diff"), os.path.join(d, "patch.diff"))
     shutil.copy(os.path.join(src, f"{letter}.demo.rs"), os.path.join(d, "demo.rs"))
@@ -160,7 +160,7 @@ if __name__ == "__main__":
     if not a:
         print(__doc__); sys.exit(2)
     if a[0] == "import":
-        do_import(a[1], a[2], a[3])
+        do_import(a[1], a[2], a[3], a[4] if len(a) > 4 else None)
     elif a[0] == "confirm":
         sys.exit(confirm(a[1]))
     elif a[0] == "detect":
